@@ -122,3 +122,34 @@ pub fn discarded_for_end_root(seed: [u8; 32], n: usize, roots: &[i64], max_candi
     }
     None
 }
+
+/// Walk the candidate stream of `seed` like `discarded_for_end_root` and describe the first candidate
+/// that passes range, invertibility and norm (the one key generation accepts, unless the NTRU equation
+/// has no solution for it): (index, ||f||^2 + ||g||^2, squared Gram-Schmidt norm).
+pub fn accepted_candidate(seed: [u8; 32], n: usize, max_candidates: usize) -> Option<(usize, i64, f64)> {
+    let mut rng = rand::rngs::StdRng::from_seed(seed);
+    let mut src = || rng.next_u32() as u8;
+    let lim = if n == 1024 { 16 } else { 32 };
+    let bound = 1.3689 * Q as f64;
+    let ntt = super::field::Ntt::new(n);
+    for j in 0..max_candidates {
+        let f = gen_poly(n, &mut src);
+        let g = gen_poly(n, &mut src);
+        if f.iter().chain(g.iter()).any(|c| c.abs() >= lim) {
+            continue;
+        }
+        if ntt.forward(&f).iter().any(|&x| x == 0) {
+            continue;
+        }
+        let gs = gs_norm_sq(&f, &g);
+        if (gs - bound).abs() < 1e-9 * bound {
+            return None;
+        }
+        if gs > bound {
+            continue;
+        }
+        let g1: i64 = f.iter().chain(g.iter()).map(|x| x * x).sum();
+        return Some((j, g1, gs));
+    }
+    None
+}
